@@ -2,6 +2,7 @@ package main
 
 import (
 	"fmt"
+	"math"
 	"os"
 	"runtime"
 	"sort"
@@ -30,6 +31,7 @@ type locker interface {
 	RLocks(ks []int)
 	RUnlocks(ks []int)
 	Multi() bool
+	Grow(n int) // make key ids < n addressable (extra keys of the burst ops)
 	Entries() int
 	Counts(k int) (int, int, bool)
 }
@@ -37,6 +39,17 @@ type locker interface {
 type anyLocker struct {
 	l    keylock.Locker
 	vals []interface{}
+	str  bool
+}
+
+func (a *anyLocker) Grow(n int) {
+	for k := len(a.vals); k < n; k++ {
+		if a.str {
+			a.vals = append(a.vals, "x-"+strconv.Itoa(k))
+		} else {
+			a.vals = append(a.vals, 1000000+k)
+		}
+	}
 }
 
 func (a *anyLocker) Lock(k int)                    { a.l.Lock(a.vals[k]) }
@@ -54,7 +67,25 @@ func (a *anyLocker) Counts(k int) (int, int, bool) { return keylock.VerifKeyCoun
 type tLocker[T comparable] struct {
 	l    keylock.TLocker[T]
 	vals []T
+	mk   func(k int) T
 }
+
+func (a *tLocker[T]) Grow(n int) {
+	for k := len(a.vals); k < n; k++ {
+		a.vals = append(a.vals, a.mk(k))
+	}
+}
+
+// hitKey implements remap.HitGroup: routed by Hit(), but a key in its own right (identity = both fields)
+type hitKey struct {
+	hit uint64
+	id  int
+}
+
+func (h hitKey) Hit() uint64 { return h.hit }
+
+// negative and extreme int keys (hash kinds `neg` = int, `n64` = int64): routed by remap.SimpleIndex = uint64(v) % shards
+var negInts = []int64{-1, -5, math.MinInt64, math.MaxInt64, -73, -2, -146, 5, 70, -4, -1 << 32, 1<<63 - 2}
 
 func (a *tLocker[T]) sel(ks []int) []T {
 	out := make([]T, len(ks))
@@ -141,7 +172,13 @@ func parseInit(f []string) (*env, bool) {
 	if !(single || e.kind == "klg" || e.kind == "tkg") {
 		return nil, false
 	}
-	if e.hash != "mod" && e.hash != "xh" && e.hash != "str" {
+	special := e.hash == "neg" || e.hash == "n64" || e.hash == "hit"
+	if special {
+		if (e.hash == "hit" && e.kind != "kl" && e.kind != "klg") || (e.hash == "n64" && e.kind != "tkl" && e.kind != "tkg") || (e.hash != "hit" && len(nums) >= 3 && nums[2] > len(negInts)) {
+			return nil, false
+		}
+	}
+	if !special && e.hash != "mod" && e.hash != "xh" && e.hash != "str" {
 		// the oracle ignores the hash name; the runner needs a known one to build the locker
 		return nil, false
 	}
@@ -153,11 +190,45 @@ func parseInit(f []string) (*env, bool) {
 			return nil, false
 		}
 	}
+	opt := remap.WithPrime(uint64(e.prime))
+	if special {
+		rm := remap.NewReMap(opt)
+		anyVals := make([]interface{}, e.K)
+		i64 := make([]int64, e.K)
+		is := make([]int, e.K)
+		for i := range anyVals {
+			var v interface{}
+			if e.hash == "hit" {
+				v = hitKey{hit: uint64(e.shards[i]), id: i}
+			} else {
+				i64[i], is[i] = negInts[i], int(negInts[i])
+				v = is[i]
+			}
+			anyVals[i] = v
+			if idx := rm.SimpleIndex(v); !single && idx != e.shards[i] {
+				return nil, false // the script must state the shard remap routes this key to
+			}
+		}
+		switch {
+		case e.kind == "kl":
+			e.lk = &anyLocker{l: keylock.NewKeyLocker(), vals: anyVals}
+		case e.kind == "klg":
+			e.lk = &anyLocker{l: keylock.NewKeyLockeGrp(opt), vals: anyVals}
+		case e.hash == "n64" && e.kind == "tkl":
+			e.lk = &tLocker[int64]{l: keylock.NewTKeyLocker[int64](), vals: i64, mk: func(k int) int64 { return int64(1000000 + k) }}
+		case e.hash == "n64":
+			e.lk = &tLocker[int64]{l: keylock.NewTKeyLockeGrp[int64](opt), vals: i64, mk: func(k int) int64 { return int64(1000000 + k) }}
+		case e.kind == "tkl":
+			e.lk = &tLocker[int]{l: keylock.NewTKeyLocker[int](), vals: is, mk: func(k int) int { return 1000000 + k }}
+		default:
+			e.lk = &tLocker[int]{l: keylock.NewTKeyLockeGrp[int](opt), vals: is, mk: func(k int) int { return 1000000 + k }}
+		}
+		return e, true
+	}
 	ints, strs, ok := keyValues(e.hash, uint64(e.prime), single, e.shards)
 	if !ok {
 		return nil, false
 	}
-	opt := remap.WithPrime(uint64(e.prime))
 	switch {
 	case e.kind == "kl" || e.kind == "klg":
 		vals := make([]interface{}, e.K)
@@ -180,7 +251,7 @@ func parseInit(f []string) (*env, bool) {
 		default:
 			l = keylock.NewKeyLockeGrp(opt)
 		}
-		e.lk = &anyLocker{l: l, vals: vals}
+		e.lk = &anyLocker{l: l, vals: vals, str: e.hash == "str"}
 	case e.hash == "str":
 		var l keylock.TLocker[string]
 		if e.kind == "tkl" {
@@ -188,7 +259,7 @@ func parseInit(f []string) (*env, bool) {
 		} else {
 			l = keylock.NewTKeyLockeGrp[string](opt)
 		}
-		e.lk = &tLocker[string]{l: l, vals: strs}
+		e.lk = &tLocker[string]{l: l, vals: strs, mk: func(k int) string { return "x-" + strconv.Itoa(k) }}
 	default:
 		var l keylock.TLocker[int]
 		switch {
@@ -199,7 +270,7 @@ func parseInit(f []string) (*env, bool) {
 		default:
 			l = keylock.NewTKeyLockeGrp[int](opt)
 		}
-		e.lk = &tLocker[int]{l: l, vals: ints}
+		e.lk = &tLocker[int]{l: l, vals: ints, mk: func(k int) int { return 1000000 + k }}
 	}
 	return e, true
 }
@@ -514,6 +585,32 @@ func (r *runner) orderMonitor(t int, write bool, keys []int, pre map[int][]int) 
 	}
 }
 
+// burst: the fold of single-key calls over keys lo..hi-1 by thread t, stopping when t parks (keys it already holds /
+// does not hold in that mode are skipped). Extra key ids (>= K of the init line) live in shard 0 of a 1-shard locker.
+func (r *runner) burst(t int, unlock, write bool, lo, hi int) string {
+	if hi > r.e.K {
+		r.e.lk.Grow(hi)
+		for k := r.e.K; k < hi; k++ {
+			r.e.shards = append(r.e.shards, 0)
+		}
+		r.e.K = hi
+	}
+	for k := lo; k < hi; k++ {
+		if r.cur[t] != nil {
+			break
+		}
+		w, held := r.held[t][k]
+		if (unlock && (!held || w != write)) || (!unlock && held) {
+			continue
+		}
+		r.doCall(t, unlock, write, []int{k}, false)
+		if len(r.hits) > 0 {
+			break
+		}
+	}
+	return r.status()
+}
+
 func (r *runner) drain() string {
 	for pass := 0; pass < 1000; pass++ {
 		did := false
@@ -705,6 +802,14 @@ func runScriptStream(c corr.Case, emit func(string)) (res corr.Result) {
 			}
 		case len(f) == 1 && f[0] == "entries":
 			out = strconv.Itoa(r.e.lk.Entries())
+		case len(f) == 5 && (f[0] == "burst" || f[0] == "unburst"):
+			t, ok1 := parseNat(f[1])
+			lo, ok2 := parseNat(f[3])
+			hi, ok3 := parseNat(f[4])
+			if ok1 && ok2 && ok3 && (f[2] == "w" || f[2] == "r") && t < r.e.N && r.e.prime == 1 && lo < hi && hi <= 2048 && hi-lo <= 1600 {
+				out = r.burst(t, f[0] == "unburst", f[2] == "w", lo, hi)
+				r.monitors(line)
+			}
 		case len(f) == 3 && f[0] == "stress":
 			g, ok1 := parseNat(f[1])
 			it, ok2 := parseNat(f[2])
